@@ -121,8 +121,9 @@ func V1Pay(fee bool, outs int) Action {
 		txn := types.Transaction{SiacoinInputs: []types.SiacoinInput{{ParentID: p.ID, UnlockConditions: w.Keys.StdUC(KeyOf(c))}}}
 		v := p.SiacoinOutput.Value
 		if fee {
-			txn.MinerFees = []types.Currency{Fee}
-			v = v.Sub(Fee)
+			// two fee entries: v1 transactions carry a LIST of miner fees
+			txn.MinerFees = []types.Currency{Fee, types.NewCurrency64(3)}
+			v = v.Sub(Fee).Sub(types.NewCurrency64(3))
 		}
 		if outs == 2 {
 			half := v.Div64(2)
